@@ -550,6 +550,54 @@ def r_slicechunks(body):
         body = body[:x.start()] + new + body[b_close + 1:]
 
 
+def r_flatmap(body):
+    """RECV.flat_map(|P| E).for_each(|Q| BODY)  ->  for P in RECV { for Q in E { BODY } }
+    (definitions of Iterator::flat_map and Iterator::for_each; a type annotation on a closure parameter is dropped; R-flatmap)"""
+    log = []
+    guard = 0
+    while True:
+        guard += 1
+        if guard > 50:
+            raise Unsupported("R-flatmap: did not converge")
+        m = code_mask(body)
+        mo = None
+        for x in re.finditer(r"\.flat_map\(\s*", body):
+            if m[x.start()]:
+                mo = x
+                break
+        if mo is None:
+            return body, log
+        open_paren = body.index("(", mo.start())
+        close1 = match_close(body, m, open_paren)
+        clos1 = body[open_paren + 1:close1].strip()
+        c1 = re.match(r"\|\s*([^|]*?)\s*\|\s*", clos1)
+        if not c1:
+            raise Unsupported("R-flatmap: closure literal expected")
+        p1 = re.sub(r":\s*[^,|]+$", "", c1.group(1).strip())
+        e1 = clos1[c1.end():].strip()
+        rest = body[close1 + 1:]
+        fe = re.match(r"\s*\.for_each\(\s*", rest)
+        if not fe:
+            raise Unsupported("R-flatmap: only the form .flat_map(..).for_each(..) is rewritten")
+        open2 = close1 + 1 + rest.index("(", 0, fe.end())
+        close2 = match_close(body, m, open2)
+        clos2 = body[open2 + 1:close2].strip()
+        c2 = re.match(r"\|\s*([^|]*?)\s*\|\s*", clos2)
+        if not c2:
+            raise Unsupported("R-flatmap: closure literal expected in for_each")
+        p2 = c2.group(1).strip()
+        if not p2.startswith("("):
+            p2 = re.sub(r":\s*.+$", "", p2)
+        b2 = clos2[c2.end():].strip()
+        if not b2.startswith("{"):
+            b2 = "{ %s; }" % b2
+        j = _recv_start(body, m, mo.start())
+        recv = body[j:mo.start()].strip()
+        new = "for %s in %s { for %s in %s %s }" % (p1, recv, p2, e1, b2)
+        log.append(("R-flatmap", norm_ws(body[j:close2 + 1])[:200], norm_ws(new)[:200] + " ..."))
+        body = body[:j] + new + body[close2 + 1:]
+
+
 def r_tryfold(body):
     """RECV.try_fold(INIT, |ACC, PAT| BODY)  ->  { let mut ACC = INIT; for PAT in RECV { ACC = (BODY)?; } ACC_OK }
     where the whole expression is in tail / `?` position; emitted as a block evaluating to Result: Ok(ACC).
@@ -910,6 +958,9 @@ def emit_fn(f, udir, unit_props, recs, log_global):
     for r in f.get("sig_subst", []):
         sig, l = r_subst(sig, [r], where)
         log += l
+    mname = re.search(r"\bfn\s+(\w+)", sig)
+    if mname and not f.get("variant"):
+        rec.fn_name = mname.group(1)      # a signature substitution may have renamed the emitted function (R-inherent)
     if rec.mode == "assume":
         text = "#[verifier::external_body]\n" + splice_sig(sig, f.get("ret", "r"), f.get("requires", []), f.get("ensures", []), f.get("sig_extra")) + "{ unimplemented!() }\n"
     else:
@@ -946,6 +997,9 @@ def emit_fn(f, udir, unit_props, recs, log_global):
             log += l
         if "matchcount" in rewrites:
             body, l = r_matchcount(body)
+            log += l
+        if "flatmap" in rewrites:
+            body, l = r_flatmap(body)
             log += l
         if "foreach" in rewrites:
             body, l = r_foreach(body)
